@@ -183,6 +183,7 @@ theorem refines_ionice (c : Cfg) (hg : c.Good) (k : Kernel) (pid : Nat) (st : PS
           have hfit : (fitsCInt cls && fitsCInt (v.getD 0)) = true := by
             simp [fitsCInt]; omega
           have hneg : ¬ (cls < 0 ∨ v.getD 0 < 0) := by omega
+          have hnr := inNativeRange hg hc (show 0 ≤ v.getD 0 ∧ v.getD 0 ≤ 7 by omega)
           have hd : (v.getD 0).toNat < 8192 := by omega
           have hlt : cls.toNat * 8192 + (v.getD 0).toNat < 2147483648 := by omega
           have hacc : ioprioAccepted (cls.toNat * 8192 + (v.getD 0).toNat) = true :=
@@ -194,7 +195,7 @@ theorem refines_ionice (c : Cfg) (hg : c.Good) (k : Kernel) (pid : Nat) (st : PS
           have hmod : (cls.toNat * 8192 + (v.getD 0).toNat) % 65536 = cls.toNat * 8192 + (v.getD 0).toNat := by
             omega
           simp only [step, ioniceSet, hg.dflt, hg.lo, hg.hi, hg.noval, h1, hl, if_false, cextIoprioSet, hfit,
-            Bool.not_true, Bool.false_eq_true, hneg, hg.shift, pack_eq _ _ hd, hlt, if_true, sysIoprioSet,
+            Bool.not_true, Bool.false_eq_true, hnr, hneg, hg.shift, pack_eq _ _ hd, hlt, if_true, sysIoprioSet,
             hacc, resolve_pid k hpid, hst, ofSys, hmod, setProc_eq_replaced, Spec.ioprioValue]
     · cases hs
 
@@ -436,5 +437,75 @@ theorem refines_affinity (c : Cfg) (hg : c.Good) (k : Kernel) (pid : Nat) (st : 
             simp [cpuAffinitySet, cextAffinitySet, hm, sysSchedSetaffinity, resolve_pid k hpid, hst, hgr, ofSys,
               hel, hdiag el hel]
         · cases hs
+
+/-! ### small facts used by Props/C18.lean -/
+
+theorem replaced_self (k : Kernel) (pid : Nat) (st : PState) (e : Eff) :
+    (Spec.replaced k pid st e).procs pid = some st := if_pos rfl
+
+theorem limitToPy_limitOfPy {v : Int} {n : Nat} (h : Spec.limitOfPy v = some n) : Spec.limitToPy n = some v := by
+  unfold Spec.limitOfPy at h
+  unfold Spec.limitToPy
+  split at h
+  · rename_i e; subst e
+    simp only [Option.some.injEq] at h; subst h; rfl
+  · split at h
+    · simp only [Option.some.injEq] at h; subst h
+      have : ¬ (v.toNat = Spec.rlimInfinity) := by simp only [Spec.rlimInfinity]; omega
+      have h2 : v.toNat < 9223372036854775808 := by omega
+      simp only [this, if_false, h2, if_true, Option.some.injEq]
+      omega
+    · cases h
+
+/-- a non-empty CPU list naming only CPUs that do not exist or that the process may not use -/
+def OnlyUnusableCpus (k : Kernel) (st : PState) (cpus : List Int) : Prop :=
+  cpus ≠ [] ∧ ∀ x ∈ cpus, fitsCLong x = true ∧ (x < 0 ∨ k.ncpu ≤ x.toNat ∨ ¬ x.toNat ∈ st.cpuset)
+
+theorem expect_of_onlyUnusable {k : Kernel} {st : PState} {cpus : List Int} (pid : Nat)
+    (h : OnlyUnusableCpus k st cpus) :
+    Spec.expect k pid st (.cpuAffinity (some cpus)) = .promised (.exc .valueError) k := by
+  obtain ⟨hne, hall⟩ := h
+  have hemp : cpus.isEmpty = false := by
+    cases cpus with
+    | nil => exact absurd rfl hne
+    | cons _ _ => rfl
+  have h1 : ¬ (cpus.all fun x => decide (0 ≤ x) && (Spec.eligible k st).contains x.toNat) = true := by
+    rw [List.all_eq_true]
+    intro hh
+    cases hc : cpus with
+    | nil => exact hne hc
+    | cons y _ =>
+      have hy : y ∈ cpus := by simp [hc]
+      have := hh y hy
+      simp only [Bool.and_eq_true, decide_eq_true_eq, List.contains_iff_mem] at this
+      have he := (mem_eligible k st _).1 this.2
+      have h0 := this.1
+      rcases (hall y hy).2 with h | h | h
+      · omega
+      · omega
+      · exact h he.2
+  have h2 : (cpus.all fun x => fitsCLong x && Spec.isNonexistentOrIneligible k st x) = true := by
+    rw [List.all_eq_true]
+    intro x hx
+    obtain ⟨hf, hu⟩ := hall x hx
+    simp only [Bool.and_eq_true, hf, true_and, Spec.isNonexistentOrIneligible, Bool.or_eq_true,
+      decide_eq_true_eq, Bool.not_eq_true', List.contains_eq_mem, decide_eq_false_iff_not]
+    rcases hu with hu | hu | hu
+    · exact Or.inl hu
+    · exact Or.inr (fun he => by have := ((mem_eligible k st _).1 he).1; omega)
+    · exact Or.inr (fun he => hu ((mem_eligible k st _).1 he).2)
+  simp only [Spec.expect, hemp, Bool.false_eq_true, if_false, h1, h2, if_true]
+
+/-- a concrete kernel: 4 CPUs, the process confined to CPUs 0-1 and currently on CPU 0 -/
+def kWitness : Kernel :=
+  { procs := fun q => if q = 7 then
+      some { nice := 0, ioprio := 0, affinity := [0], cpuset := [0, 1], rlimits := fun _ => (0, 0) } else none
+    self := 1, ncpu := 4, nrOpen := 1048576, capResource := true, log := [] }
+
+def stWitness : PState :=
+  { nice := 0, ioprio := 0, affinity := [0], cpuset := [0, 1], rlimits := fun _ => (0, 0) }
+
+theorem wf_witness : WF kWitness stWitness :=
+  ⟨by decide, by decide, by decide, by decide, by decide, fun _ => ⟨by simp [stWitness], by simp [stWitness]⟩⟩
 
 end Psutil.C18
